@@ -47,7 +47,8 @@ def make_model(ctx, family, d, K, h=2, cuts=1):
 
 
 class RowLocal(SxContract):
-    max_paths = 5000
+    max_paths = 400
+    budget_s = 90
 
     def __init__(self, family, n, d, K, h=2, cuts=1):
         self.family, self.n, self.d, self.K, self.h, self.cuts = family, n, d, K, h, cuts
@@ -95,3 +96,55 @@ class RowLocal(SxContract):
 
 def task(family, n, d, K, h=2, cuts=1, seed=0):
     return run_sx(RowLocal(family, n, d, K, h, cuts), seed=seed)
+
+
+def native_locality(seed, tier):
+    """B: on real fitted models, predict_proba / predict of a row do not depend on the other rows of the array --
+    including arrays that mix ordinary rows with rows of very large magnitude (float-level row coupling such as a
+    batch-wide softmax shift is invisible to real-arithmetic contracts)."""
+    import warnings
+    from gemclus.linear import LinearMMD, KernelRIM, RIM
+    from gemclus.mlp import MLPMMD
+    from gemclus.sparse import SparseLinearMMD, SparseMLPMMD
+    from gemclus.tree import Douglas, Kauri
+    obs = []
+    rs = np.random.RandomState(seed)
+    Xtr = rs.normal(size=(20, 3))
+    Z = np.vstack([rs.normal(size=(6, 3)), np.array([[4000., -4000., 4000.], [-4000., 4000., 2500.]]), rs.normal(size=(3, 3)) * 0.01])
+    mk = {"LinearMMD": lambda: LinearMMD(n_clusters=3, max_iter=5, random_state=seed), "RIM": lambda: RIM(n_clusters=3, max_iter=5, random_state=seed),
+          "KernelRIM(rbf, gamma=4)": lambda: KernelRIM(n_clusters=3, max_iter=5, random_state=seed, base_kernel="rbf", base_kernel_params={"gamma": 4.0}),
+          "KernelRIM(poly)": lambda: KernelRIM(n_clusters=2, max_iter=5, random_state=seed, base_kernel="polynomial", base_kernel_params={"degree": 2, "coef0": 0.5}),
+          "MLPMMD": lambda: MLPMMD(n_clusters=3, max_iter=5, random_state=seed, n_hidden_dim=5),
+          "SparseLinearMMD": lambda: SparseLinearMMD(n_clusters=3, max_iter=5, random_state=seed),
+          "SparseMLPMMD": lambda: SparseMLPMMD(n_clusters=3, max_iter=5, random_state=seed, n_hidden_dim=5),
+          "Douglas": lambda: Douglas(n_clusters=3, max_iter=5, random_state=seed, gemini="mmd_ova", n_cuts=2),
+          "Kauri": lambda: Kauri(max_clusters=3, random_state=seed)}
+    for name, f in mk.items():
+        why = []
+        try:
+            with warnings.catch_warnings(), np.errstate(all="ignore"):
+                warnings.simplefilter("ignore")
+                m = f().fit(Xtr)
+                if not np.array_equal(m.predict(Xtr), m.labels_):
+                    why.append("predict(X_train) != labels_")
+                for A in (Z, Xtr):
+                    whole = m.predict(A)
+                    single = np.array([m.predict(A[i:i + 1])[0] for i in range(len(A))])
+                    perm = rs.permutation(len(A))
+                    if not np.array_equal(whole, single):
+                        why.append("predict differs between the whole array and single rows")
+                    if not np.array_equal(m.predict(A[perm]), whole[perm]):
+                        why.append("predict differs under a reordering of the rows")
+                    if hasattr(m, "predict_proba"):
+                        Pw = m.predict_proba(A)
+                        Ps = np.vstack([m.predict_proba(A[i:i + 1]) for i in range(len(A))])
+                        if not (np.all(np.isfinite(Pw)) and np.allclose(Pw, Ps, rtol=1e-9, atol=1e-12)):
+                            why.append("predict_proba differs between the whole array and single rows (or is not finite)")
+                        sub = [0, 6, 7, 9]
+                        if not np.allclose(m.predict_proba(A[sub]), Pw[sub], rtol=1e-9, atol=1e-12):
+                            why.append("predict_proba of a subset differs")
+        except Exception as e:
+            why.append("raised " + repr(e)[:120])
+        obs.append(Ob(f"native row-locality {name}: whole array == single rows == subset == reordered, training predictions == labels_, with extreme rows mixed in",
+                      PROVED if not why else REFUTED, "native", "B", {"failed": sorted(set(why)), "replayed": True}, fn=f"{name}.predict_proba"))
+    return obs
